@@ -87,6 +87,15 @@ func (f *ReverseBoltCursor) Seek(val []byte) {
 	}
 }
 
+// typedKeyValue strips the type tag from a typed set key. The empty string is stored as the bare tag; it must
+// stay distinguishable from nil, which marks an exhausted cursor.
+func typedKeyValue(key []byte) []byte {
+	if len(key) == 0 {
+		return nil
+	}
+	return key[1:]
+}
+
 func NewTypedForwardBoltCursor(cursor *bbolt.Cursor, fieldType FieldType) ast.SeekableSetCursor {
 	result := &TypedForwardBoltCursor{
 		BaseBoltCursor: BaseBoltCursor{
@@ -97,7 +106,7 @@ func NewTypedForwardBoltCursor(cursor *bbolt.Cursor, fieldType FieldType) ast.Se
 	}
 
 	key, _ := result.cursor.First()
-	_, result.key = GetTypeAndValue(key)
+	result.key = typedKeyValue(key)
 
 	return result
 }
@@ -109,13 +118,13 @@ type TypedForwardBoltCursor struct {
 
 func (f *TypedForwardBoltCursor) Next() {
 	key, _ := f.cursor.Next()
-	_, f.key = GetTypeAndValue(key)
+	f.key = typedKeyValue(key)
 }
 
 func (f *TypedForwardBoltCursor) Seek(val []byte) {
 	searchVal := PrependFieldType(f.fieldType, val)
 	key, _ := f.cursor.Seek(searchVal)
-	_, f.key = GetTypeAndValue(key)
+	f.key = typedKeyValue(key)
 }
 
 func NewTypedReverseBoltCursor(cursor *bbolt.Cursor, fieldType FieldType) ast.SeekableSetCursor {
@@ -128,7 +137,7 @@ func NewTypedReverseBoltCursor(cursor *bbolt.Cursor, fieldType FieldType) ast.Se
 	}
 
 	key, _ := result.cursor.Last()
-	_, result.key = GetTypeAndValue(key)
+	result.key = typedKeyValue(key)
 
 	return result
 }
@@ -140,7 +149,7 @@ type TypedReverseBoltCursor struct {
 
 func (f *TypedReverseBoltCursor) Next() {
 	key, _ := f.cursor.Prev()
-	_, f.key = GetTypeAndValue(key)
+	f.key = typedKeyValue(key)
 }
 
 func (f *TypedReverseBoltCursor) Seek(val []byte) {
@@ -150,5 +159,5 @@ func (f *TypedReverseBoltCursor) Seek(val []byte) {
 		f.Next()
 		return
 	}
-	_, f.key = GetTypeAndValue(key)
+	f.key = typedKeyValue(key)
 }
